@@ -115,6 +115,8 @@ def _visibility_table(ctx, repo) -> None:
 
 def check(ctx) -> None:
     repo = ctx.repo
+    ctx.rule("C27.lambda", "ABSINT: _get_lambda_assigned_name finds the assigned name from the first line of the lambda's code object for single-line, parenthesised and continued module-level lambdas", floor=4)
+    _lambda_names(ctx, repo)
     ctx.rule("C27.guard", "GUARD-DOM: every add_accessible_object_under_test call in the analysis functions is under `add_to_test`", floor=3)
     ctx.rule("C27.origin", "add_to_test is `<element>.__module__ == root_module_name` at every analysis entry and forwarded unchanged to the method analysis", floor=3)
     ctx.rule("C27.visibility", "registration of functions and methods is dominated by `not __should_skip_by_visibility(<unqualified name>, add_to_test=add_to_test)`; the visibility table matches its documentation", floor=6)
@@ -257,3 +259,42 @@ def check(ctx) -> None:
 
     ok = len(r) == 1 and positive_owner(nnf(r[0].value))
     ctx.check("C27.owner", r[0] if r else dc, ok, f"`{norm(r[0].value) if r else '?'}` accepts a method without its defining class being resolved to the analysed class (e.g. an unresolvable owner counts as own): inherited or borrowed callables of other modules are attributed to the class under test", what="own method iff class_ == get_class_that_defined_method(method)")
+
+
+def _lambda_names(ctx, repo) -> None:
+    """_get_lambda_assigned_name, interpreted over module trees: for every module-level `name = lambda ...` the name is
+    found from the line the lambda's code object starts on (co_firstlineno), also when the lambda starts on a later line
+    than the assignment target."""
+    from sa.engine import peval
+
+    M = "pynguin.analyses.module"
+    fn = repo.try_func(M, "_get_lambda_assigned_name")
+    if fn is None:
+        raise AnalysisError("anchor vanished: module._get_lambda_assigned_name")
+    ctx.analysed(fn)
+    mod = repo.module(M)
+    src = "one = lambda x: x\nwrapped = (\n    lambda v: v + 1\n)\ncontinued = \\\n    lambda: 3\n_hidden = lambda y: y\nplain = 5\n"
+    tree = ast.parse(src)
+    code = compile(src, "<representative>", "exec")
+    firstlines = sorted(k.co_firstlineno for k in code.co_consts if hasattr(k, "co_code"))
+    want = {}
+    for node in tree.body:
+        if isinstance(node, ast.Assign) and isinstance(node.value, ast.Lambda):
+            want[node.value.lineno] = node.targets[0].id
+    if sorted(want) != firstlines:
+        raise AnalysisError("C27.lambda: the representative's lambda lines and code objects disagree")
+    for line, name in sorted(want.items()):
+        tag = f"[lambda name] `{name}` (code object starts on line {line})"
+        it = peval.Interp(resolver=peval.repo_resolver(repo), native_types=(ast.AST,), consts={"ast": ast, "Assign": ast.Assign, "Lambda": ast.Lambda}, max_steps=20000)
+        try:
+            got = it.run_function(fn, [tree, line], {}, mod)
+        except (peval.Undecided, peval.Raises) as exc:
+            ctx.undecide("C27.lambda", fn, f"{tag}: {exc}")
+            continue
+        ctx.check("C27.lambda", fn, got == name, f"{tag}: the lookup yields {got!r}: the eligible lambda gets no name and is silently left out of the test cluster (or is registered under another lambda's name)", what=f"{tag}: found", stmt=tag)
+    it = peval.Interp(resolver=peval.repo_resolver(repo), native_types=(ast.AST,), consts={"ast": ast, "Assign": ast.Assign, "Lambda": ast.Lambda}, max_steps=20000)
+    try:
+        got = it.run_function(fn, [tree, 8], {}, mod)
+        ctx.check("C27.lambda", fn, got is None, f"[lambda name] a line without lambda yields {got!r}", what="[lambda name] no lambda on the line -> None", stmt="[lambda name] none")
+    except (peval.Undecided, peval.Raises) as exc:
+        ctx.undecide("C27.lambda", fn, f"no-lambda line: {exc}")
